@@ -143,6 +143,13 @@ def PSt.setBlockTypeF (S : Schema) (st : PSt) (f t : Nat) (ty : TypeId) (attrs :
     | .error e => .error e
     | .ok (st', _) => if fsize st.tr.doc.kids < t then .error (.plan .internal) else .ok st'
 
+/-- a *plain* target type: its content automaton is closed (every edge leads to a state of the
+    automaton) and every state is a valid end — `inline*`, `text*`, `(a | b)*`, …: whatever children
+    are kept, the walk of `clear_incompatible` ends at a valid end and no filler is ever needed -/
+def Schema.plainType (S : Schema) (ty : TypeId) : Bool :=
+  decide (0 < (S.dfa ty).size) &&
+  (S.dfa ty).toList.all (fun s => s.validEnd && s.edges.all (fun e => decide (e.2 < (S.dfa ty).size)))
+
 /-! ### executable forms of two statements about `clear_incompatible` (evaluated by the tie on real runs) -/
 
 /-- the filler request of `clear_incompatible(pos, pty)` on a node value, as the analysis of
